@@ -39,14 +39,35 @@ inductive Err
   deriving Repr, DecidableEq
 
 def digitsToNat (cs : List Char) : Nat := cs.foldl (fun n c => 10 * n + (c.toNat - '0'.toNat)) 0
-/-- ASCII subset of CPython int(str): optional sign + digits (no underscores/whitespace: generator avoids them) -/
+/-- the ASCII characters CPython's `int(str)` strips from both ends (C `isspace`) -/
+def isPySpace (c : Char) : Bool :=
+  c = ' ' || c = '\t' || c = '\n' || c = '\r' || c = Char.ofNat 11 || c = Char.ofNat 12
+
+def stripPySpace (s : Tok) : Tok := ((s.dropWhile isPySpace).reverse.dropWhile isPySpace).reverse
+
+/-- decimal digits with single underscores BETWEEN digits (`1_000`; not `_1`, `1_`, `1__0`): the digits, underscores removed.
+    `prev` = the previous character was a digit. -/
+def pyDigits? : Bool → List Char → Option (List Char)
+  | prev, [] => if prev then some [] else none
+  | prev, c :: r =>
+    if c.isDigit then (pyDigits? true r).map (c :: ·)
+    else if c = '_' && prev then pyDigits? false r
+    else none
+
+/-- optional sign directly before the digits: (negative?, rest) -/
+def splitSign : Tok → Bool × Tok
+  | '-' :: r => (true, r)
+  | '+' :: r => (false, r)
+  | r => (false, r)
+
+/-- the ASCII part of CPython `int(str)` (base 10): surrounding ASCII whitespace, optional sign directly before the digits,
+    leading zeros allowed, single underscores between digits.  NOT modelled (compared by the harness oracle only): non-ASCII
+    decimal digits and non-ASCII whitespace, which `int()` also accepts. -/
 def pyInt? (s : Tok) : Option Int :=
-  let (neg, ds) := match s with
-    | '-' :: r => (true, r)
-    | '+' :: r => (false, r)
-    | r => (false, r)
-  if ds.isEmpty || !ds.all Char.isDigit then none
-  else some (if neg then - (Int.ofNat (digitsToNat ds)) else Int.ofNat (digitsToNat ds))
+  let p := splitSign (stripPySpace s)
+  match pyDigits? false p.2 with
+  | none => none
+  | some digits => some (if p.1 then - (Int.ofNat (digitsToNat digits)) else Int.ofNat (digitsToNat digits))
 
 /-- Argument.set_value -/
 def Arg.setValue (a : Arg) (v : PVal) (cast : Bool := true) : Except Err Arg :=
